@@ -28,6 +28,17 @@ def make_cases(tier, rng):
                 form = "local-hot" if n % 2 else "threads-hot"
                 cases.append(("k%d" % n, "(case k%d group_by %s %s (calls %s))" % (n, form, key, evs),
                               {"form": form, "key": key, "len": len(s), "malformed": True}))
+    # a key function with a state of its own (called once per item), and take(N) on the stream of groups (create() source)
+    for s in gen.scripts(4 if tier == "quick" else 6, items=[0, 1, 2, 3]):
+        evs = " ".join(gen.ev(e) for e in s)
+        n += 1
+        cases.append(("k%d" % n, "(case k%d group_by %s chunk2 (calls %s))" % (n, "local-cold" if n % 2 else "threads-cold", evs),
+                      {"form": "cold", "key": "chunk2", "len": len(s)}))
+        for key in KEYS[1:]:
+            for tk in (1, 2, 3):
+                n += 1
+                cases.append(("k%d" % n, "(case k%d group_by %s %s (calls %s) (take %d))" % (n, "local-cold" if n % 2 else "threads-cold", key, evs, tk),
+                              {"form": "cold", "key": key + "/take", "len": len(s)}))
     return cases
 
 
